@@ -248,6 +248,8 @@ def build(recipe):
         it = b.create_item_objects(track_index=0, name="a", parent=c, block_formats=default_blocks(E, "Objects"))
         avs = E.AlternativeValueSet(gain=0.5)
         it.audio_object.alternativeValueSets.append(avs)
+        if var % 4 >= 2:
+            it.audio_object.alternativeValueSets.append(E.AlternativeValueSet(mute=True))
         (p if var % 2 == 0 else c).alternativeValueSets.append(avs)
     elif kind.startswith("matrix_"):
         c = pc()
@@ -415,6 +417,7 @@ def fault_sites(doc, rng=None, max_targets=None):
                     for t in targets("acf", idx_of("acf", blk.outputChannelFormat)):
                         out.append(("bset", ("acf", i), bi, t))
                     for k, co in enumerate(blk.matrix):
+                        out.append(("cpar", ("acf", i), bi, k))
                         out.append(("cset", ("acf", i), bi, k, None))
                         for t in targets("acf", idx_of("acf", co.inputChannelFormat)):
                             out.append(("cset", ("acf", i), bi, k, t))
@@ -429,8 +432,8 @@ def fault_sites(doc, rng=None, max_targets=None):
                 out.append(("avs", (kind, i), "dup"))
             out.append(("avs", (kind, i), "foreign"))
             for oi, o in enumerate(adm.audioObjects):
-                if o.alternativeValueSets:
-                    out.append(("avs", (kind, i), "ref", oi))
+                for ai in range(len(o.alternativeValueSets)):
+                    out.append(("avs", (kind, i), "ref", oi, ai))
     if n["ap"]:
         for p in [None] + list(range(n["ap"])):
             if p != doc.prog:
@@ -466,6 +469,8 @@ def fault_kind(f):
         return "channel-content"
     if op == "ppar":
         return "hoa-pack-parameter"
+    if op == "cpar":
+        return "matrix-coefficient-parameter"
     if op in ("bset", "cset"):
         return "matrix-ref-remove" if f[-1] is None else "matrix-ref-retarget"
     if op == "avs":
@@ -489,6 +494,8 @@ def site_kind(f):
         return "apf." + f[2]
     if op == "bset":
         return "block.outputChannelFormat"
+    if op == "cpar":
+        return "coefficient.phase"
     if op == "cset":
         return "coefficient.inputChannelFormat"
     if op == "avs":
@@ -577,6 +584,8 @@ def apply_fault(doc, f):
         elif op == "bset":
             blk = doc.elem(f[1]).audioBlockFormats[f[2]]
             blk.outputChannelFormat = None if f[3] is None else doc.elem(tuple(f[3]))
+        elif op == "cpar":
+            doc.elem(f[1]).audioBlockFormats[f[2]].matrix[f[3]].phase = 90.0
         elif op == "cset":
             co = doc.elem(f[1]).audioBlockFormats[f[2]].matrix[f[3]]
             co.inputChannelFormat = None if f[4] is None else doc.elem(tuple(f[4]))
@@ -590,9 +599,10 @@ def apply_fault(doc, f):
                 e.alternativeValueSets.append(E.AlternativeValueSet(id="AVS_FOREIGN"))
             else:
                 avss = adm.audioObjects[f[3]].alternativeValueSets
-                if not avss:
+                ai = f[4] if len(f) > 4 else 0
+                if ai >= len(avss):
                     return False
-                e.alternativeValueSets.append(avss[0])
+                e.alternativeValueSets.append(avss[ai])
         elif op == "prog":
             doc.prog = f[1]
         elif op == "sel":
